@@ -362,6 +362,9 @@ pub fn run_part<P: Prop>(opts: &Opts) -> PartReport {
         agg: Mutex::new(Agg::default()),
     });
     let violations: Arc<Mutex<Vec<(String, String, String)>>> = Arc::new(Mutex::new(Vec::new()));
+    // failing cases as first found, before shrinking: reported as they are when the watchdog or
+    // the memory guard has to end the run while a worker is still shrinking
+    let unshrunk: Arc<Mutex<Vec<(String, String, String)>>> = Arc::new(Mutex::new(Vec::new()));
     let mut report = PartReport {
         part: P::PART.to_string(),
         rule: P::RULE.to_string(),
@@ -404,6 +407,7 @@ pub fn run_part<P: Prop>(opts: &Opts) -> PartReport {
         for w in 0..threads {
             let shared = shared.clone();
             let violations = violations.clone();
+            let unshrunk = unshrunk.clone();
             let fixed = fixed.clone();
             let slot = slots[w].clone();
             let done = done.clone();
@@ -484,7 +488,14 @@ pub fn run_part<P: Prop>(opts: &Opts) -> PartReport {
                             *slot.lock().unwrap() = None;
                             match ev {
                                 Eval::Pass => Ok(()),
-                                Eval::Violation(sig, _) => {
+                                Eval::Violation(sig, detail) => {
+                                    if !failed.get() {
+                                        unshrunk.lock().unwrap().push((
+                                            js.clone(),
+                                            sig.clone(),
+                                            detail,
+                                        ));
+                                    }
                                     failed.set(true);
                                     Err(TestCaseError::fail(sig))
                                 }
@@ -521,6 +532,26 @@ pub fn run_part<P: Prop>(opts: &Opts) -> PartReport {
                 })
                 .expect("spawn worker");
         }
+        // a violation already found (and being shrunk) outranks a hang of some other case
+        let report_unshrunk = |why: &str| {
+            let v = violations.lock().unwrap();
+            if let Some((p, sig, detail)) = v.first() {
+                out(&format!("VIOLATION property={} replay={}", P::ID, p));
+                out(&format!("  signature: {sig}"));
+                out(&format!("  detail: {}", detail.chars().take(1500).collect::<String>()));
+                std::process::exit(1);
+            }
+            drop(v);
+            let u = unshrunk.lock().unwrap();
+            if let Some((js, sig, detail)) = u.first() {
+                let p = write_replay::<P>(opts, js, sig, detail);
+                out(&format!("VIOLATION property={} replay={}", P::ID, p));
+                out(&format!("  signature: {sig}"));
+                out(&format!("  detail: {}", detail.chars().take(1500).collect::<String>()));
+                out(&format!("  note: not shrunk ({why} while shrinking)"));
+                std::process::exit(1);
+            }
+        };
         // watchdog
         loop {
             if done.load(Ordering::SeqCst) as usize == threads {
@@ -530,6 +561,7 @@ pub fn run_part<P: Prop>(opts: &Opts) -> PartReport {
             // memory guard: a planner that loops while pushing states (e.g. path extraction on a
             // cyclic tree) exhausts memory long before any time-based watchdog fires
             if rss_bytes() > mem_limit() {
+                report_unshrunk("memory guard fired");
                 let mut oldest: Option<(Instant, String)> = None;
                 for s in &slots {
                     if let Some((t0, js)) = &*s.lock().unwrap() {
@@ -559,6 +591,7 @@ pub fn run_part<P: Prop>(opts: &Opts) -> PartReport {
                         opts.watchdog
                     };
                     if t0.elapsed() > wd {
+                        report_unshrunk("watchdog fired");
                         let sig = "hang";
                         let detail = format!(
                             "case did not finish within the {} s watchdog",
